@@ -169,6 +169,14 @@ func genC18(repo string) (string, error) {
 	if err := c18Stmts(&o, sf, "Server", "GetConfig", "getter_GetConfig_sections", func(src string) bool { return strings.HasPrefix(src, "cfg") }); err != nil {
 		return "", err
 	}
+	// the etcd-backed kv.Base under Storage.SaveConfig: one put, its error is handed up (the model's write is "applied or not, acknowledged or not")
+	ef, err := goast.Load(repo, "server/kv/etcd_kv.go")
+	if err != nil {
+		return "", err
+	}
+	if err := o.skeleton(ef, "etcdKVBase", "Save", "skel_etcdKVBase_Save", goast.SkelOpt{Conds: true, Calls: set("Commit", "Sleep")}); err != nil {
+		return "", err
+	}
 	af, err := goast.Load(repo, "server/api/config.go")
 	if err != nil {
 		return "", err
